@@ -344,6 +344,65 @@ func C14(tier string) int {
 		}
 	}
 
+	// ---- (3b) how the document names its vocabulary: plain @context entries and aliased ones ----
+	// (the library's alias form is {vocabulary URI: alias}; an aliased document writes "alias:Name")
+	swap := func(u string) string {
+		if strings.HasPrefix(u, "https://") {
+			return "http://" + strings.TrimPrefix(u, "https://")
+		}
+		return "https://" + strings.TrimPrefix(u, "http://")
+	}
+	for _, v := range keys {
+		tv := o.Types[v]
+		if tv.Typeless {
+			continue
+		}
+		uri := rawURI(o.VocabOf(tv.Vocab))
+		asURI := rawURI(o.Vocabs[0])
+		type ctxForm struct {
+			name string
+			ctx  interface{}
+			typ  interface{}
+		}
+		forms := []ctxForm{
+			{"own-uri", uri, tv.Name},
+			{"own-uri-other-scheme", swap(uri), tv.Name},
+			{"list-as+own", L{asURI, uri}, tv.Name},
+			{"alias-map", M{uri: "zz"}, "zz:" + tv.Name},
+			{"alias-map-in-list", L{asURI, M{uri: "zz"}}, "zz:" + tv.Name},
+			{"alias-map-type-array", M{uri: "zz"}, L{"zz:" + tv.Name}},
+			{"alias-map-in-list-after-others", L{M{"https://other.example/ns": "oo"}, M{uri: "zz"}}, "zz:" + tv.Name},
+		}
+		if uri == asURI {
+			forms[2].ctx = L{uri, "https://other.example/ns"}
+			forms[4].ctx = L{"https://other.example/ns", M{uri: "zz"}}
+		}
+		for _, f := range forms {
+			doc := jsonNorm(M{"@context": f.ctx, "type": f.typ, "id": "https://x.example/v"}).(map[string]interface{})
+			res.Case("ctxform|" + v + "|" + f.name)
+			rep := M{"check": "C14", "value_type": v, "doc": doc}
+			log := &cbLog{}
+			var cbs []interface{}
+			other := "ActivityStreams/Note"
+			if v == other {
+				other = "ActivityStreams/Person"
+			}
+			cbs = append(cbs, mkCallback(log, 0, bind.Type(other), nil), mkCallback(log, 1, bind.Type(v), errA), mkCallback(log, 2, bind.Type(v), nil))
+			r, err := streams.NewJSONResolver(cbs...)
+			if err != nil {
+				continue
+			}
+			rerr := r.Resolve(ctx, doc)
+			if len(log.calls) != 1 || log.calls[0].idx != 1 || rerr != errA {
+				res.Violate("context-spelling|JSONResolver|"+f.name, fmt.Sprintf("value %s written with @context %v and type %v: invoked %v, err %v; expected exactly the first %s callback and its error", v, f.ctx, f.typ, log.calls, rerr, v), rep)
+			}
+			t, terr := streams.ToType(ctx, doc)
+			if t == nil || terr != nil || t.GetTypeName() != tv.Name {
+				res.Violate("context-spelling|ToType|"+f.name, fmt.Sprintf("value %s written with @context %v and type %v: ToType returned %v, %v", v, f.ctx, f.typ, t, terr), rep)
+			}
+		}
+	}
+
 	// ---- (4) constructor arguments of wrong shape ----
 	note := bind.Type("ActivityStreams/Note")
 	log := &cbLog{}
@@ -387,7 +446,7 @@ func C14(tier string) int {
 	}
 
 	res.Extra["types"] = len(keys)
-	res.Rule = fmt.Sprintf("(1) all %d x %d (value type, callback type) pairs for JSONResolver, TypeResolver and TypePredicatedResolver (predicate outcomes (true,nil),(false,nil),(false,err),(true,err)); (2) for every value type all callback lists of length 0..%d over {own, own returning an error, a parent, a child, a sibling, a similarly named foreign type, a foreign type}; (3) all 'type' arrays of length 1..3 over {Note, Person, Emoji, an unknown name, an unknown prefixed name} x 6 callback sets, with ToType as cross-check; (4) 13 wrong constructor shapes x 3 constructors; callbacks are manufactured with reflect.MakeFunc from the ontology-derived binding table; oracle: exactly the first own-type callback is invoked and its error returned by identity, else nothing is invoked and IsUnmatchedErr holds", len(keys), len(keys), maxLen)
+	res.Rule = fmt.Sprintf("(1) all %d x %d (value type, callback type) pairs for JSONResolver, TypeResolver and TypePredicatedResolver (predicate outcomes (true,nil),(false,nil),(false,err),(true,err)); (2) for every value type all callback lists of length 0..%d over {own, own returning an error, a parent, a child, a sibling, a similarly named foreign type, a foreign type}; (3) all 'type' arrays of length 1..3 over {Note, Person, Emoji, an unknown name, an unknown prefixed name} x 6 callback sets, with ToType as cross-check; (3b) every type written under 7 @context spellings (own vocabulary URI, the same with the other of http / https, in a list, aliased {URI: alias} alone / in a list / after another alias map / with a type array) through JSONResolver and ToType; (4) 13 wrong constructor shapes x 3 constructors; callbacks are manufactured with reflect.MakeFunc from the ontology-derived binding table; oracle: exactly the first own-type callback is invoked and its error returned by identity, else nothing is invoked and IsUnmatchedErr holds", len(keys), len(keys), maxLen)
 	res.Assumptions = []string{"for a multi-valued 'type' the value's own type is the first entry that names a known type (ToType is required to agree)"}
 	return res.Finish()
 }
